@@ -9,7 +9,7 @@ args = sys.argv[1:]
 jobs = 3
 if args[:1] == ["-j"]:
     jobs = int(args[1]); args = args[2:]
-dirs = sorted(glob.glob(os.path.join(VERIF, "seeded", "C*-[ABCD]")))
+dirs = sorted(glob.glob(os.path.join(VERIF, "seeded", "C*-[ABCDEF]")))
 if args:
     dirs = [d for d in dirs if os.path.basename(d) in args]
 
